@@ -72,6 +72,16 @@ Theorem c34_tag_names : forall evs,
 Proof. exact tag_names_spec. Qed.
 Print Assumptions c34_tag_names.
 
+(** The predicate evaluated on the implementation's observed outputs
+    ([Exec.holds_on]) is implied by agreement with the model ([Exec.check_case]),
+    for every case whose stream is shorter than 2^64 events (the uint64 counters of
+    the tag tracer do not wrap). *)
+From Akita Require Import C34.Exec C34.Proofs6.
+Theorem c34_model_agreement_implies_property : forall c, N.of_nat (length (c_evs c)) < two64 ->
+  check_case c = true -> holds_on c = true.
+Proof. exact check_implies_holds. Qed.
+Print Assumptions c34_model_agreement_implies_property.
+
 (** Regression lemmas for the two defects fixed in /repo. *)
 Theorem c34_average_old_refuted :
   let evs := [EStart 1 0 true; EEnd 1 3; EStart 2 3 true; EEnd 2 3; EStart 3 4 true; EEnd 3 4] in
